@@ -292,6 +292,7 @@ StepFeat ==
     (IF d.ty = "try" /\ \E i \in 1..Len(k) : k[i].f = "fin" /\ k[i].pend.c # "normal" THEN {"fin_nested_try"} ELSE {})
     \* a reference that resolves to a binding still in its temporal dead zone while an enclosing scope has a binding of that name
     \cup (IF d.ty \in {"var", "typeofvar", "update", "lassignv", "cassignv"} /\ TdzShadow(d.name) THEN {"tdz_shadow"} ELSE {})
+    \cup (IF d.ty = "classdecl" /\ d.parent # "" /\ TdzShadow(d.parent) THEN {"tdz_shadow"} ELSE {})
     \cup (IF d.ty = "this" /\ FindEnv(heap, env, "this") = NoEnv THEN {"toplevel_this"} ELSE {})
     \cup (IF d.ty = "this" /\ (\E i \in 1..Len(out) : out[i].e = "order") THEN {"this_after_suspend"} ELSE {})
     \cup
